@@ -49,7 +49,18 @@ func runChild(t *testing.T) {
 	for i, op := range ops {
 		say("B %d", i)
 		done := make(chan string, 1)
-		go func() { done <- w.doL2(op) }()
+		go func() {
+			sent := false
+			// t.Fatal in a helper ends this goroutine with runtime.Goexit: report it instead of waiting for the timeout
+			defer func() {
+				if !sent {
+					done <- "res=badcase why=harness_fatal"
+				}
+			}()
+			o := w.doL2(op)
+			sent = true
+			done <- o
+		}()
 		var obs string
 		select {
 		case obs = <-done:
